@@ -7,7 +7,14 @@
 //! batches). Records one ndjson event per spec action; spec/Trace_WorkerCtl.tla + TLC decide
 //! whether the recording is a behaviour of the specification.
 //!
-//! usage: drive_workerctl --seed S --runs N --threads T --out trace.ndjson
+//! `--scenario fault` (C07, commands that touch sockets): every run plays the environment of
+//! WorkerCtl.tla's Env_HoldAddress / Env_ReleaseAddress - between batches of listener verbs the
+//! harness binds / drops a plain std socket (no SO_REUSEPORT: a foreign process) on listener
+//! addresses, so that ActivateListener is refused by the OS; events `hold` / `release` /
+//! `holdfail`. Every run ends with all addresses released and every listener activated again:
+//! the probes must then see listeners that serve.
+//!
+//! usage: drive_workerctl --seed S --runs N --threads T --out trace.ndjson [--scenario fault]
 //! stdout: one {"kind":"summary",...} line.
 
 use std::collections::BTreeMap;
@@ -440,6 +447,245 @@ fn drive(run: u64, seed: u64, index_base: u64, port: u16, quiet: Duration) -> Ru
     Run { events: ev, requests: reqs.len() as u64, responses: n_resp, probes: n_probe, exit }
 }
 
+/// One back-to-back batch on worker `w`: `send` events, then the worker thread's own `cmd` events
+/// (hook, worker order), then the `resp` events (channel order). Returns the responses.
+#[allow(clippy::too_many_arguments)]
+fn batch_events(
+    w: &mut Worker, name: &str, run: u64, ad: &Addrs, batch: &[(String, String)], ev: &mut Vec<Value>,
+    reqs: &mut Vec<(String, String)>, extra: usize, seen_cmds: &mut usize, n_resp: &mut u64, quiet: Duration,
+) -> Vec<WorkerResponse> {
+    let mut ids = Vec::new();
+    for (k, a) in batch {
+        let request: Request = wctl::build_request(k, a, ad).into();
+        let id = w.send_raw(request);
+        reqs.push((k.clone(), a.clone()));
+        ev.push(json!({"ev": "send", "run": run, "id": reqs.len(), "k": k, "a": a}));
+        ids.push(id);
+    }
+    let mut got: Vec<WorkerResponse> = Vec::new();
+    let mut last = Instant::now();
+    loop {
+        let done = ids.iter().all(|id| got.iter().any(|r| &r.id == id && r.status != ResponseStatus::Processing as i32));
+        if done {
+            break;
+        }
+        match w.read(Duration::from_millis(50)) {
+            Some(r) => {
+                last = Instant::now();
+                got.push(r);
+            }
+            None => {
+                if w.is_finished() {
+                    while let Some(r) = w.read(Duration::from_millis(20)) {
+                        got.push(r);
+                    }
+                    break;
+                }
+                if last.elapsed() > quiet {
+                    break;
+                }
+            }
+        }
+    }
+    let cmds = wctl::peek_events(name);
+    for c in cmds.iter().skip(*seen_cmds) {
+        let idn: usize = c.id.rsplit('-').next().and_then(|s| s.parse().ok()).unwrap_or(0);
+        let (k, a) = reqs.get(idn.wrapping_sub(1)).cloned().unwrap_or_default();
+        ev.push(json!({"ev": "cmd", "run": run, "id": idn, "k": k, "a": a, "ok": c.ok, "failure": c.failure,
+                       "processing": c.processing, "base": c.base, "slab": c.slab, "extra": extra}));
+    }
+    *seen_cmds = cmds.len();
+    for r in &got {
+        if r.id == "EVENT" {
+            continue;
+        }
+        let idn: usize = r.id.rsplit('-').next().and_then(|s| s.parse().ok()).unwrap_or(0);
+        ev.push(json!({"ev": "resp", "run": run, "id": idn, "st": wctl::status_name(r.status)}));
+        *n_resp += 1;
+    }
+    got
+}
+
+/// The fault scenario: listener verbs interleaved with a foreign process holding / releasing the
+/// listener addresses (see the module documentation).
+fn drive_fault(run: u64, seed: u64, index_base: u64, port: u16, quiet: Duration) -> Run {
+    let mut rng = Rng::new(seed.wrapping_mul(1_000_033).wrapping_add(run) ^ 0xFA17);
+    let ad = Addrs::for_index(index_base + run, port);
+    let name = format!("f{}", index_base + run);
+    let mut ev: Vec<Value> = vec![json!({"ev": "reset", "run": run})];
+    let all_backends: Vec<String> = BACKENDS.iter().map(|s| s.to_string()).collect();
+    let _mocks = MockBackends::start(&ad, &all_backends);
+    let listeners: Vec<String> = LISTENERS.iter().map(|s| s.to_string()).collect();
+    let mut w = Worker::start_empty(&name);
+    let mut reqs: Vec<(String, String)> = Vec::new();
+    let mut seen_cmds = 0usize;
+    let (mut n_resp, mut n_probe) = (0u64, 0u64);
+    let rq = |k: &str, a: &str| (k.to_string(), a.to_string());
+
+    // the listeners this run plays with
+    let mut ls: Vec<&str> = Vec::new();
+    let want = 1 + rng.below(3) as usize;
+    while ls.len() < want {
+        let l = *rng.pick(LISTENERS);
+        if !ls.contains(&l) {
+            ls.push(l);
+        }
+    }
+    let mut holders: BTreeMap<String, wctl::Holder> = BTreeMap::new();
+    let mut handed = false; // a ReturnListenSockets was sent: the spec's environment holds nothing new
+    let mut probe_conns = 0usize;
+
+    // the environment moves first in half of the runs: the very first activation is refused
+    let toggle = |l: &str, holders: &mut BTreeMap<String, wctl::Holder>, ev: &mut Vec<Value>, may_hold: bool| {
+        let a = wctl::addr_letter(l);
+        if holders.remove(&a).is_some() {
+            ev.push(json!({"ev": "release", "run": run, "a": a}));
+        } else if may_hold {
+            match wctl::hold_address(&ad, &a) {
+                Ok(h) => {
+                    holders.insert(a.clone(), h);
+                    ev.push(json!({"ev": "hold", "run": run, "a": a}));
+                }
+                Err(e) => ev.push(json!({"ev": "holdfail", "run": run, "a": a, "error": e})),
+            }
+        }
+    };
+    if rng.below(2) == 0 {
+        let l = *rng.pick(&ls);
+        toggle(l, &mut holders, &mut ev, true);
+    }
+    let mut setup: Vec<(String, String)> = Vec::new();
+    for l in &ls {
+        if rng.below(10) < 9 {
+            setup.push(rq("AddListener", l));
+        }
+        if rng.below(10) < 6 {
+            setup.push(rq("Activate", l));
+        }
+    }
+    if rng.below(10) < 7 {
+        setup.push(rq("AddCluster", "c1"));
+        setup.push(rq("AddBackend", "b1"));
+        for (l, k, f) in [("hA", "AddHFront", "f1"), ("hB", "AddHFront", "f4"), ("tC", "AddTFront", "t1")] {
+            if ls.contains(&l) && rng.below(10) < 7 {
+                setup.push(rq(k, f));
+            }
+        }
+    }
+    let _ = batch_events(&mut w, &name, run, &ad, &setup, &mut ev, &mut reqs, 2, &mut seen_cmds, &mut n_resp, quiet);
+
+    let probes = |w: &mut Worker, holders: &BTreeMap<String, wctl::Holder>, ev: &mut Vec<Value>, n_probe: &mut u64| -> usize {
+        if wctl::peek_events(&name).iter().any(|c| c.verb == "ReturnListenSockets") {
+            wctl::drain_scm(w.scm_main_to_worker.raw_fd());
+        }
+        let held: Vec<String> = holders.keys().cloned().collect();
+        let seen = wctl::run_probes_faults(&ad, &listeners, quiet, &held);
+        let mut conns = 0;
+        for (l, m) in seen {
+            for (h, out) in m {
+                if out != "refused" && l != "uE" {
+                    conns += 1;
+                }
+                ev.push(json!({"ev": "probe", "run": run, "l": l, "h": h, "out": out}));
+                *n_probe += 1;
+            }
+        }
+        conns
+    };
+    probe_conns += probes(&mut w, &holders, &mut ev, &mut n_probe);
+
+    let rounds = 3 + rng.below(4);
+    for _ in 0..rounds {
+        if w.is_finished() {
+            break;
+        }
+        // the environment
+        for l in &ls {
+            if rng.below(3) == 0 {
+                toggle(l, &mut holders, &mut ev, !handed);
+            }
+        }
+        // listener verbs
+        let size = 1 + rng.below(3);
+        let mut batch = Vec::new();
+        for _ in 0..size {
+            let k = rng.weighted(&[
+                ("Activate", 45), ("Deactivate", 18), ("RemoveListener", 7), ("AddListener", 10), ("UpdateListener", 5),
+                ("ReturnSockets", 2), ("Status", 5), ("AddHFront", 4), ("RemoveHFront", 2), ("AddTFront", 2),
+            ]);
+            match k {
+                "ReturnSockets" => {
+                    handed = true;
+                    batch.push(rq(k, ""));
+                }
+                "Status" => batch.push(rq(k, "")),
+                "AddHFront" | "RemoveHFront" => batch.push(rq(k, *rng.pick(&["f1", "f4"]))),
+                "AddTFront" => batch.push(rq(k, "t1")),
+                _ => batch.push(rq(k, *rng.pick(&ls))),
+            }
+        }
+        let _ = batch_events(&mut w, &name, run, &ad, &batch, &mut ev, &mut reqs, 2 * probe_conns + 2, &mut seen_cmds, &mut n_resp, quiet);
+        probe_conns = probes(&mut w, &holders, &mut ev, &mut n_probe);
+    }
+    // every cause is gone: the same command is sent again and the listeners must serve
+    let letters: Vec<String> = holders.keys().cloned().collect();
+    for a in letters {
+        holders.remove(&a);
+        ev.push(json!({"ev": "release", "run": run, "a": a}));
+    }
+    if !w.is_finished() {
+        let again: Vec<(String, String)> = ls.iter().map(|l| rq("Activate", l)).collect();
+        let _ = batch_events(&mut w, &name, run, &ad, &again, &mut ev, &mut reqs, 2 * probe_conns + 2, &mut seen_cmds, &mut n_resp, quiet);
+        probe_conns = probes(&mut w, &holders, &mut ev, &mut n_probe);
+        let _ = batch_events(&mut w, &name, run, &ad, &[rq("SoftStop", "")], &mut ev, &mut reqs, 2 * probe_conns + 2, &mut seen_cmds, &mut n_resp, quiet);
+    }
+    let mut tail: Vec<WorkerResponse> = Vec::new();
+    let deadline = Instant::now() + Duration::from_secs(6);
+    while Instant::now() < deadline {
+        match w.read(Duration::from_millis(50)) {
+            Some(r) => tail.push(r),
+            None => {
+                if w.is_finished() {
+                    while let Some(r) = w.read(Duration::from_millis(20)) {
+                        tail.push(r);
+                    }
+                    break;
+                }
+            }
+        }
+    }
+    let cmds = wctl::peek_events(&name);
+    for c in cmds.iter().skip(seen_cmds) {
+        let idn: usize = c.id.rsplit('-').next().and_then(|s| s.parse().ok()).unwrap_or(0);
+        let (k, a) = reqs.get(idn.wrapping_sub(1)).cloned().unwrap_or_default();
+        ev.push(json!({"ev": "cmd", "run": run, "id": idn, "k": k, "a": a, "ok": c.ok, "failure": c.failure,
+                       "processing": c.processing, "base": c.base, "slab": c.slab, "extra": 2 * probe_conns + 16}));
+    }
+    for r in &tail {
+        if r.id == "EVENT" {
+            continue;
+        }
+        let idn: usize = r.id.rsplit('-').next().and_then(|s| s.parse().ok()).unwrap_or(0);
+        ev.push(json!({"ev": "resp", "run": run, "id": idn, "st": wctl::status_name(r.status)}));
+        n_resp += 1;
+    }
+    let exit = match w.join_within(Duration::from_secs(1)) {
+        Ok(true) => {
+            unsafe {
+                libc::close(w.scm_main_to_worker.raw_fd());
+                libc::close(w.scm_worker_to_main.raw_fd());
+            }
+            "clean".to_string()
+        }
+        Ok(false) => "hang".to_string(),
+        Err(p) => format!("panic: {p}"),
+    };
+    ev.push(json!({"ev": "exit", "run": run, "how": if exit.starts_with("panic") { "panic" } else { exit.as_str() }, "detail": exit}));
+    let _ = wctl::take_events(&name);
+    wctl::forget_idle(&name);
+    Run { events: ev, requests: reqs.len() as u64, responses: n_resp, probes: n_probe, exit }
+}
+
 fn main() {
     vh::util::quiet_panics();
     let a: Vec<String> = std::env::args().collect();
@@ -449,6 +695,7 @@ fn main() {
     let mut out = String::from("trace.ndjson");
     let mut index_base = 0u64;
     let mut wait_ms = 4000u64;
+    let mut fault = false;
     let mut i = 1;
     while i < a.len() {
         match a[i].as_str() {
@@ -458,6 +705,7 @@ fn main() {
             "--out" => { out = a[i + 1].clone(); i += 1 }
             "--index-base" => { index_base = a[i + 1].parse().unwrap(); i += 1 }
             "--wait-ms" => { wait_ms = a[i + 1].parse().unwrap(); i += 1 }
+            "--scenario" => { fault = a[i + 1] == "fault"; i += 1 }
             _ => {}
         }
         i += 1;
@@ -483,7 +731,13 @@ fn main() {
                 if r >= runs {
                     break;
                 }
-                let res = catch_unwind(AssertUnwindSafe(|| drive(r + 1, seed, index_base, port, Duration::from_millis(wait_ms))));
+                let res = catch_unwind(AssertUnwindSafe(|| {
+                    if fault {
+                        drive_fault(r + 1, seed, index_base, port, Duration::from_millis(wait_ms))
+                    } else {
+                        drive(r + 1, seed, index_base, port, Duration::from_millis(wait_ms))
+                    }
+                }));
                 let run = match res {
                     Ok(run) => run,
                     Err(e) => Run {
